@@ -27,8 +27,11 @@ func NewFeature(geometry Object, members string) *Feature {
 			if gjson.Get(members, "feature").Exists() {
 				members, _ = sjson.Delete(members, "feature")
 			}
-			g.extra = new(extra)
-			g.extra.members = string(pretty.UglyInPlace([]byte(members)))
+			members = string(pretty.UglyInPlace([]byte(members)))
+			if members != "{}" {
+				g.extra = new(extra)
+				g.extra.members = members
+			}
 		}
 	}
 	return g
